@@ -55,9 +55,10 @@ def run_case(case: dict[str, Any]) -> dict[str, Any]:  # noqa: C901, PLR0915
     if c_n:
         cfg["nonlinear_constraints"] = {"lower_bounds": case["nlb"], "upper_bounds": case["nub"]}
     transforms = None
-    if case["vscale"] is not None or case["cscale"] is not None or case["oscale"] is not None:
+    if case["vscale"] is not None or case["voff"] is not None or case["cscale"] is not None or case["oscale"] is not None:
         transforms = OptModelTransforms(
-            variables=None if case["vscale"] is None else VariableScaler(np.array(case["vscale"]), np.array(case["voff"])),
+            variables=None if case["vscale"] is None and case["voff"] is None else VariableScaler(
+                None if case["vscale"] is None else np.array(case["vscale"]), None if case["voff"] is None else np.array(case["voff"])),
             objectives=None if case["oscale"] is None else ObjectiveScaler([case["oscale"]]),
             nonlinear_constraints=None if case["cscale"] is None or not c_n else ConstraintScaler(case["cscale"]),
         )
@@ -157,13 +158,13 @@ def hypothesis_shard(item: dict[str, Any]) -> Collector:
             if not any(row):
                 row[draw(st.integers(0, n - 1))] = 1.0
             a_mat.append(row)
-        tkind = draw(st.sampled_from(["none", "none", "var", "all", "con"]))
+        tkind = draw(st.sampled_from(["none", "none", "var", "all", "con", "var-offsets-only", "var-scales-only"]))
         return {
             "n": n, "R": r_n, "L": l_n, "C": c_n, "x": [draw(num) for _ in range(n)], "lb": lb, "ub": ub,
             "A": a_mat, "llb": llb, "lub": lub, "nlb": nlb, "nub": nub,
             "slopes": [draw(num) for _ in range(r_n * (1 + c_n) * n)], "offsets": [draw(num) for _ in range(r_n * (1 + c_n))],
-            "vscale": [draw(st.sampled_from([0.5, 2.0, 10.0])) for _ in range(n)] if tkind in ("var", "all") else None,
-            "voff": [draw(st.sampled_from([0.0, 1.0, -2.0])) for _ in range(n)] if tkind in ("var", "all") else None,
+            "vscale": [draw(st.sampled_from([0.5, 2.0, 10.0])) for _ in range(n)] if tkind in ("var", "all", "var-scales-only") else None,
+            "voff": [draw(st.sampled_from([0.0, 1.0, -2.0])) for _ in range(n)] if tkind in ("var", "all", "var-offsets-only") else None,
             "oscale": draw(st.sampled_from([2.0, 0.1])) if tkind == "all" else None,
             "cscale": [draw(st.sampled_from([0.5, 4.0])) for _ in range(c_n)] if tkind in ("all", "con") and c_n else None,
         }
@@ -173,7 +174,7 @@ def hypothesis_shard(item: dict[str, Any]) -> Collector:
         mixed_var = any(np.isfinite(case["lb"] + case["ub"])) and any(np.isinf(case["lb"])) and any(np.isinf(case["ub"]))
         col.case(case, nontrivial=info["nontrivial"], classes=(
             "violated" if info["violated"] else "feasible", f"L={case['L']}", f"C={case['C']}",
-            "transforms" if case["vscale"] or case["cscale"] else "plain",
+            "transforms" if case["vscale"] or case["voff"] or case["cscale"] else "plain",
             "bounds-inf-both-sides" if mixed_var else "bounds-other"))
 
     run_hypothesis(col, cases(), body, seed=item["seed"], max_examples=item["examples"])
